@@ -53,6 +53,9 @@ struct Scn {
     /// p1 uploads to t0 over a stream t0 never reads: the writer ends up parked on a full
     /// window (connect at ms)
     upload: Option<u64>,
+    /// the target reads the upload as it arrives (nothing unread at the crash, the window is in
+    /// flight) instead of never reading it
+    upload_drained: bool,
     /// t0 dials p1:7200 itself: (at ms after its start, think time between ping-pongs)
     dials: Vec<(u64, u64)>,
     /// Builder::enable_tokio_io, and the target's software uses the IO driver
@@ -254,6 +257,7 @@ async fn target_program(log: Log<Ev>, t: usize, inc: u32, p: TProbe, s: Scn) -> 
         log.push(Ev::TAccept { t, inc, peer: peer.to_string() });
         let g = Guard::new(&gc);
         let slow_ms = s.slow_ms;
+        let upload_drained = s.upload_drained;
         tokio::task::spawn_local(async move {
             let _g = g;
             let mut b = [0u8; 8];
@@ -265,6 +269,16 @@ async fn target_program(log: Log<Ev>, t: usize, inc: u32, p: TProbe, s: Scn) -> 
                     break;
                 }
                 if u64::from_le_bytes(b) == u64::MAX - 1 {
+                    if upload_drained {
+                        // upload: read and discard as it arrives; what the peer has written is on the wire
+                        let mut sink = [0u8; 256];
+                        while let Ok(n) = st.read(&mut sink).await {
+                            if n == 0 {
+                                break;
+                            }
+                        }
+                        break;
+                    }
                     // upload: never read again, the peer's writer runs into the window
                     std::future::pending::<()>().await;
                 }
@@ -970,8 +984,9 @@ fn check(s: &Scn, ex: &Exec, twin_iso: &[String], base_steps: u64, out: &mut Sce
             }
         }
     }
-    // an uploader parked on a full window when t0 crashes (t0 never read from the stream)
-    // must get an error, not hang
+    // an uploader with an established stream when t0 crashes must get a write error instead of
+    // hanging on the flow-control window: whether t0 never read from the stream (window full of
+    // unread data) or read everything as it arrived (window in flight at the crash)
     if let (Some((cq, cstep, _)), Some(_)) = (first_down, s.upload) {
         let established = ex.evs.iter().any(|(q, _, e)| *q < cq && matches!(e, Ev::ConnOk { c, .. } if *c == UPLOAD));
         let ended_before = ex.evs.iter().any(|(q, _, e)| *q < cq && matches!(e, Ev::Unblocked { c, .. } if *c == UPLOAD));
@@ -982,6 +997,9 @@ fn check(s: &Scn, ex: &Exec, twin_iso: &[String], base_steps: u64, out: &mut Sce
             if parked {
                 out.count("upload_writers_parked_on_full_window_at_crash", 1);
             }
+            if s.upload_drained {
+                out.count("uploads_with_window_in_flight_at_crash", 1);
+            }
             // segments written after the crash are answered with a reset one round trip later
             let bound = cstep + 2 * lat_steps + 6;
             let unb = ex.evs.iter().find_map(|(q, st, e)| match e {
@@ -990,15 +1008,11 @@ fn check(s: &Scn, ex: &Exec, twin_iso: &[String], base_steps: u64, out: &mut Sce
             });
             match unb {
                 Some((st, _)) if st <= bound => out.count("upload_writers_unblocked", 1),
-                // a writer that still had credit at the crash instant was not waiting; what it
-                // writes afterwards reaches the host while it is down and may stay pending
-                // until the host is bounced (quantifier text): not judged
-                _ if !parked => out.count("upload_writers_with_credit_at_crash_not_judged", 1),
                 other => {
                     if s.steps > bound {
                         out.violate(
                             "peer-not-unblocked",
-                            format!("C04|peer-not-unblocked|upload-parked-in-write|{kind}"),
+                            format!("C04|peer-not-unblocked|upload-{}|{kind}", if s.upload_drained { "window-in-flight" } else if parked { "parked-in-write" } else { "writing" }),
                             format!("uploader (tcp_capacity {}, last completed write in step {last_write}) had an established stream to t0 when it crashed after step {cstep}; expected a write error by step {bound}, observed {other:?}", s.tcp_cap),
                             desc.clone(),
                         )
@@ -1146,6 +1160,7 @@ fn base(seed: u64) -> Scn {
         bulk: if r.chance(0.6) { Some((r.range(2, 20), r.pick_copy(&[1u64, 3, 6]))) } else { None },
         slow_ms: r.pick_copy(&[0u64, 0, 2, 5]),
         upload: if r.chance(0.5) { Some(r.range(2, 25)) } else { None },
+        upload_drained: r.coin(),
         dials: (0..r.range(0, 3)).map(|_| (r.range(1, 45), r.pick_copy(&[0u64, 2, 7]))).collect(),
         tokio_io: r.chance(0.3),
         inject: Inject::None,
@@ -1268,6 +1283,6 @@ fn fin() -> Finish<'static> {
             "prompt = latency + 2 steps for parked readers, 2 steps for queued connectors".into(),
         ],
         min_distinct: 10,
-        required_counters: vec!["crash_points", "bounces", "peers_parked_in_read_at_crash", "peers_unblocked_promptly", "queued_connectors_refused", "handshakes_in_flight_at_crash", "stale_syns_refused", "datagrams_reaching_down_host", "rebinds_after_bounce", "down_step_observations", "isolated_pair_events_compared", "regex_multi_host_workloads", "regex_crash_with_one_target_already_down", "bulk_streams_ended_after_crash", "uploads_open_at_crash", "upload_writers_parked_on_full_window_at_crash", "target_dialled_streams_open_at_crash", "target_dialled_streams_accepted_in_the_crash_step"],
+        required_counters: vec!["crash_points", "bounces", "peers_parked_in_read_at_crash", "peers_unblocked_promptly", "queued_connectors_refused", "handshakes_in_flight_at_crash", "stale_syns_refused", "datagrams_reaching_down_host", "rebinds_after_bounce", "down_step_observations", "isolated_pair_events_compared", "regex_multi_host_workloads", "regex_crash_with_one_target_already_down", "bulk_streams_ended_after_crash", "uploads_open_at_crash", "upload_writers_parked_on_full_window_at_crash", "uploads_with_window_in_flight_at_crash", "upload_writers_unblocked", "target_dialled_streams_open_at_crash", "target_dialled_streams_accepted_in_the_crash_step"],
     }
 }
